@@ -465,18 +465,192 @@ def run_pairs(P, rep, units):
     for (rec, F, Pf), _ in sorted(pairs.items()):
         for un, u in sorted(us.items()):
             for f, fd in sorted(u.functions.items()):
-                stF, stP = {}, set()
+                stF = {}
                 for n in fd.walk():
                     if n.kind == 'BinaryOperator' and n.opcode == '=' and n.inner:
                         t = n.inner[0].strip()
-                        if t.kind == 'MemberExpr' and t.inner and _rec_of(t.inner[0]) == rec:
-                            if t.name == F:
-                                stF.setdefault(t.inner[0].src(), n)
-                            elif t.name == Pf:
-                                stP.add(t.inner[0].src())
+                        if t.kind == 'MemberExpr' and t.inner and _rec_of(t.inner[0]) == rec and t.name == F:
+                            stF.setdefault(t.inner[0].src(), n)
                 for base, n in sorted(stF.items()):
-                    ok = base in stP
-                    rep.ob(RULE_P, '%s:%s:%s.%s-stored-%s' % (un, f, rec, F, 'with-' + Pf if ok else 'without-' + Pf), ok,
-                           '%s stores %s.%s into `%s` but not %s.%s: when the value is absent (NULL), the diagnostic that reports it (%s) is given the NULL position of the '
-                           'fresh object -- error_tok(NULL) crashes instead of printing a located diagnostic' % (f, rec, F, base, rec, Pf, ', '.join(sorted(set(pairs[(rec, F, Pf)])))),
-                           where='%s:%d' % (un, n.line))
+                    # per object the base expression stands for (a store to its root variable starts another object): on every path, an object that
+                    # received F has received P before the function lets go of it (root variable rebound, function left)
+                    fl = _PairFlow(fd, base, n.inner[0].strip().inner[0], F, Pf)
+                    bad = fl.run()
+                    who = ', '.join(sorted(set(pairs[(rec, F, Pf)])))
+                    if not bad:
+                        rep.ob(RULE_P, '%s:%s:%s.%s-stored-with-%s' % (un, f, rec, F, Pf), True, '', where='%s:%d' % (un, n.line))
+                    for (gen, what), ln in sorted(bad.items()):
+                        if what == 'no-P':
+                            rep.ob(RULE_P, '%s:%s:%s.%s-stored-without-%s%s' % (un, f, rec, F, Pf, '/' + gen if len(bad) > 1 or gen != 'entry' else ''), False,
+                                   '%s stores %s.%s into `%s` (the object `%s`) but, on some path, not %s.%s before it lets go of that object: when the value is absent (NULL), the '
+                                   'diagnostic that reports it (%s) is given the NULL position of the fresh object -- error_tok(NULL) crashes instead of printing a located '
+                                   'diagnostic' % (f, rec, F, base, gen, rec, Pf, who), where='%s:%d' % (un, ln))
+                        else:
+                            rep.ob(RULE_P, '%s:%s:%s.%s-not-carried-over/%s' % (un, f, rec, F, gen), False,
+                                   '%s replaces the object `%s` by one derived from it (%s) and, unlike for the other replacements in the same function, carries over neither %s.%s '
+                                   'nor %s.%s: the value is lost and the diagnostic about its absence (%s) is given a NULL position' % (f, base, gen, rec, F, rec, Pf, who),
+                                   where='%s:%d' % (un, ln))
+
+
+def _root_var(b):
+    b = b.strip_all()
+    while b.kind in ('MemberExpr', 'UnaryOperator', 'ArraySubscriptExpr') and b.inner:
+        b = b.inner[0].strip_all()
+    return b.ref_id if b.kind == 'DeclRefExpr' else None
+
+
+def _gen_label(rhs):
+    r = rhs.strip_all()
+    c = r.callee() if r.kind == 'CallExpr' else None
+    txt = r.src() if c else r.kind
+    out = ''.join(ch if (ch.isalnum() or ch == '_') else '-' for ch in txt)
+    while '--' in out:
+        out = out.replace('--', '-')
+    return out.strip('-')[:60] or 'object'
+
+
+class _PairFlow:
+    """states: set of (gen, hasF, hasP, derived) for the object `base` currently stands for; structured over the statements of one function"""
+    def __init__(self, fd, base, base_node, F, Pf):
+        self.fd, self.base, self.F, self.Pf = fd, base, F, Pf
+        self.root = _root_var(base_node)
+        self.bad = {}
+        self.loops = []          # (break states, continue states)
+        self.sw = []
+        self.seen = {}           # gen -> set of (hasF, hasP) at the time the object is let go
+        self.derived = {}
+        self.fline = {}
+        self.readF = set()       # objects whose F the function has read (it takes the value over by hand)
+
+    def run(self):
+        body = [c for c in self.fd.inner if c.kind == 'CompoundStmt']
+        if not body:
+            return {}
+        st = self.stmt(body[-1], {('entry', False, False)})
+        self.release(st, body[-1].line)
+        # a derived replacement that carries nothing over, where a sibling derived replacement of the same function does
+        carrying = [g for g, s in self.seen.items() if self.derived.get(g) and any(f for f, p in s)]
+        if carrying:
+            for g, s in self.seen.items():
+                if self.derived.get(g) and g not in carrying and not any(f or p for f, p in s):
+                    self.bad.setdefault((g, 'lost'), self.derived[g])
+        return self.bad
+
+    def release(self, st, line):
+        for (g, f, p) in st:
+            self.seen.setdefault(g, set()).add((f, p))
+            if f and not p:
+                self.bad.setdefault((g, 'no-P'), self.fline.get(g, line))
+
+    def expr(self, e, st):
+        if e is None or not hasattr(e, 'kind'):
+            return st
+        if e.kind in ('ConditionalOperator',) and len(e.inner) == 3:
+            st = self.expr(e.inner[0], st)
+            return self.expr(e.inner[1], set(st)) | self.expr(e.inner[2], set(st))
+        if e.kind == 'BinaryOperator' and e.opcode == '=' and len(e.inner) == 2:
+            st = self.expr(e.inner[1], st)
+            t = e.inner[0].strip()
+            if t.kind == 'DeclRefExpr' and self.root is not None and t.ref_id == self.root:
+                return self.rebind(e.inner[1], st, e.line)
+            if t.kind == 'MemberExpr' and t.inner and t.inner[0].src() == self.base:
+                if t.name == self.F:
+                    for g, f, p in st:
+                        self.fline.setdefault(g, e.line)
+                    return {(g, True, p) for g, f, p in st}
+                if t.name == self.Pf:
+                    return {(g, f, True) for g, f, p in st}
+            if t.kind == 'UnaryOperator' and t.opcode == '*' and t.inner and t.inner[0].src() == self.base:
+                return {(g, True, True) for g, f, p in st}          # whole-object copy
+            return self.expr(e.inner[0], st)
+        if e.kind == 'MemberExpr' and e.name == self.F and e.inner and e.inner[0].src() == self.base:
+            self.readF.update(g for g, f, p in st)
+        for c in e.inner:
+            st = self.expr(c, st)
+        return st
+
+    def rebind(self, rhs, st, line):
+        self.release(st, line)
+        g = _gen_label(rhs)
+        r = rhs.strip_all()
+        if r.kind == 'CallExpr' and self.root is not None and any(g0 in self.readF for g0, f, p in st) and any(x.kind == 'DeclRefExpr' and x.ref_id == self.root for a in r.args() for x in a.walk()):
+            self.derived.setdefault(g, line)
+        return {(g, False, False)}
+
+    def stmt(self, s, st):
+        k = s.kind
+        if not st and k not in ('CaseStmt', 'DefaultStmt', 'CompoundStmt', 'LabelStmt'):
+            return st
+        if k == 'CompoundStmt':
+            for c in s.inner:
+                st = self.stmt(c, st)
+            return st
+        if k == 'IfStmt':
+            st = self.expr(s.inner[0], st)
+            a = self.stmt(s.inner[1], set(st)) if len(s.inner) > 1 else st
+            b = self.stmt(s.inner[2], set(st)) if len(s.inner) > 2 else st
+            return a | b
+        if k in ('WhileStmt', 'ForStmt', 'DoStmt'):
+            parts = [c for c in s.inner if hasattr(c, 'kind') and c.kind]
+            body = parts[-1] if k != 'DoStmt' else parts[0]
+            heads = [c for c in parts if c is not body]
+            raw = s.d.get('inner', []) if k == 'ForStmt' else []
+            if raw and isinstance(raw[0], dict) and raw[0] and heads:
+                st = self.stmt(heads[0], st)          # the init clause runs once
+                heads = heads[1:]
+            out = set(st)
+            for _ in range(4):
+                self.loops.append((set(), set()))
+                cur = set(out)
+                for h in heads:
+                    if h.kind != 'DeclStmt':
+                        cur = self.expr(h, cur)
+                cur = self.stmt(body, cur)
+                br, co = self.loops.pop()
+                new = out | cur | br | co
+                if new == out:
+                    break
+                out = new
+            return out
+        if k == 'SwitchStmt':
+            st = self.expr(s.inner[0], st)
+            self.sw.append(set(st))
+            self.loops.append((set(), set()))
+            r = self.stmt(s.inner[-1], set())
+            br, co = self.loops.pop()
+            self.sw.pop()
+            if self.loops:
+                self.loops[-1][1].update(co)
+            return r | br | st
+        if k in ('CaseStmt', 'DefaultStmt'):
+            st = set(st) | (self.sw[-1] if self.sw else set())
+            return self.stmt(s.inner[-1], st)
+        if k == 'LabelStmt':
+            return self.stmt(s.inner[-1], st) if s.inner else st
+        if k == 'ReturnStmt':
+            for c in s.inner:
+                st = self.expr(c, st)
+            self.release(st, s.line)
+            return set()
+        if k == 'BreakStmt':
+            if self.loops:
+                self.loops[-1][0].update(st)
+            return set()
+        if k == 'ContinueStmt':
+            if self.loops:
+                self.loops[-1][1].update(st)
+            return set()
+        if k == 'GotoStmt':
+            self.release(st, s.line)
+            return set()
+        if k == 'DeclStmt':
+            for d in s.inner:
+                if d.kind == 'VarDecl':
+                    for c in d.inner:
+                        st = self.expr(c, st)
+                    if self.root is not None and d.id == self.root:
+                        st = self.rebind(d.inner[-1], st, d.line) if d.inner else {('uninitialised', False, False)}
+            return st
+        if k == 'CallExpr' and s.callee() in NORETURN:
+            return set()
+        return self.expr(s, st)
